@@ -4130,8 +4130,10 @@ def plain_column_projection(expr, parent, dependents, additional_columns=None):
     column_union = determine_column_projection(
         expr, parent, dependents, additional_columns=additional_columns
     )
+    # every label once: a label selects all the columns that carry it
+    frame_columns = list(dict.fromkeys(expr.frame.columns))
     if isinstance(column_union, list):
-        column_union = [col for col in expr.frame.columns if col in column_union]
+        column_union = [col for col in frame_columns if col in column_union]
     elif column_union not in expr.frame.columns:
         # we are accesing the index
         column_union = []
@@ -4144,7 +4146,7 @@ def plain_column_projection(expr, parent, dependents, additional_columns=None):
         # a frame, the Series is selected afterwards
         column_union = [column_union]
 
-    if column_union == expr.frame.columns:
+    if column_union == frame_columns:
         return
     result = type(expr)(expr.frame[column_union], *expr.operands[1:])
     if column_union == parent.operand("columns"):
